@@ -34,8 +34,22 @@ THEOREMS = [
     "C06.handles_fresh_xhistory",
     "C06.string_ops_need_strings",
     "C06.in_is_membership",
+    # reach audit 2: expression right-hand sides and arithmetic conditions (ArithTheorems.lean); the write-back / exactness theorems
+    # above are re-proved over the extended Rule / Node / Action (Action.resolve: expressions resolved at firing time)
+    "C06.resolve_literal_only",
+    "C06.assignments_see_earlier_writes",
+    "C06.resolve_reads_contents_only",
+    "C06.fire_one_stores_expression_value",
+    "C06.failed_expression_stores_its_text",
+    "C06.test_missing_head_false",
+    "C06.test_uses_standard_precedence",
+    "C06.test_precedence_prefix_counterexample",
+    # seeded change C06-13: a touch re-propagates every live fact of the TYPE (oracle clause quiescent_fire_all_exact_by_type = C06.exactTypeOk)
+    "C06.one_touch_repropagates_type_partial",
+    "C06.compl_touched",
+    "C06.quiescent_fire_all_exact_by_type",
 ]
-LEAN_TARGETS = ["RreModel.C06.Theorems", "RreModel.C06.ExtTheorems"]
+LEAN_TARGETS = ["RreModel.C06.Theorems", "RreModel.C06.ExtTheorems", "RreModel.C06.ArithTheorems"]
 N = {"quick": 1500, "thorough": 20000}
 EXHAUSTIVE = {"quick": False, "thorough": False}
 EXEC_TIMEOUT = 900
@@ -83,17 +97,41 @@ RULE = ("cases = corpus (defect witnesses, corner cases) + N random histories of
         "activations of rules that already fired + fire_all without reset: clause no_loop_twice; with a reset: exactness). Every observation token now ends with IncrementalEngine::stats() (rules, total / active / retracted "
         "facts, indexed types, dependency types): oracle clause stats_agree (the counting twins of the listings against the reference "
         "working memory). "
+        "REACH 2 (expressions and arithmetic conditions): 10 in 50 cases are of the family 'arithmetic' — rules whose conditions are "
+        "arithmetic tests (`T.f0 + T.f1 > 10`, `T.f0 % 2 == 0`, `T.f0 * 2 % 4 == 6`, `/ 0`, `% 0`, missing / non-numeric operands, against a "
+        "literal or a field; alone — the rule's ONLY condition: F-C06d —, negated, or beside a plain comparison: node `X.<expr>.<cmp>.<atom>`, "
+        "model Node.test / C06.testEval = matches_typed + evaluate_arithmetic_rete + evaluate_arithmetic_expr after fix-C06e) and whose actions "
+        "assign EXPRESSIONS (`<field>@<expr>`: Action.xsets, C06.Expr.actVal = evaluate_expression_for_rete + src/expression.rs + "
+        "value_to_fact_value, evaluated at FIRING time on the flattened copy, each assignment seeing the earlier ones): self-referencing "
+        "updates f = f + 1 / * 2 / / 2 under no-loop and under re-firing rules (ended by the rule's own condition, 1 case in ~100 by "
+        "max_iterations = 1000), a second assignment reading the first, a rule reading what a higher-salience rule of the same fire_all "
+        "wrote, Integer -> Float and Float -> Integer results, division by zero / by a field holding 0, missing fields, boolean / null / string "
+        "operands (the expression's TEXT is stored: value `s<900+i>`), word concatenation, operands at the i64 bounds and above 2^53 "
+        "(saturating cast, f64 rounding: C06.round53), a field of another type.  The recorder engine's closure evaluates through the public "
+        "rust_rule_engine::expression::evaluate_expression with the loader's two conversions re-implemented; the loader engine runs the "
+        "real closure (views compared token for token: tag loader_same_obs).  Oracle: fires_only_if_true_now re-evaluates arithmetic "
+        "conditions with the STANDARD precedence on the recorded contents; action_write_lost (C06.writesOk) demands, when the matched fact is "
+        "the only live one of its type and every expression HAS a value on the recorded contents (C06.definedOn; local: reads the rule's own "
+        "type), that the next firing / the view shows those contents plus the expressions' values at that moment.  A run in which a value "
+        "outside the modelled domain shows up (a float that is not a multiple of 1/2, NaN, a non-word concatenation) is flagged DX by the "
+        "harness and claims nothing (tag out_of_domain, < 1%).  3 in 50 cases are of the family 'one fact of several touched after a reset' "
+        "(seeded change C06-13): quiet rules, 2..4 facts of a type, fire_all, then reset + ONE update (mostly to non-matching contents) / "
+        "retract / insert + fire_all — clause quiescent_fire_all_exact_by_type (C06.exactTypeOk: the clause applies as soon as the TYPE of "
+        "every live fact was touched since the last fire_all; order-independent, judged on several live facts per type). "
         "Non-trivial = at least one rule fired in a history that also updates or retracts a fact; distinct = distinct case text.")
 TRUSTED = [
     "Lean 4.33 kernel; axioms of every property theorem within {propext, Classical.choice, Quot.sound} (audited each run)",
     "hand-written model RreModel/C06/Model.lean (+ the agenda model of C07) tied to src/rete/{working_memory,propagation,network,alpha,facts}.rs "
     "by the correspondence check only (differential testing)",
-    "harness/src/bin/c06.rs (recorder closure, mimic of the GRL action closure, rendering of a case's rules as GRL text), "
+    "harness/src/bin/c06.rs (recorder closure, mimic of the GRL action closure — expressions through the public "
+    "expression::evaluate_expression —, rendering of a case's rules as GRL text), "
     "Driver/C06.lean parsing/printing glue, check.py diff",
 ]
 ASSUMPTIONS = [
-    "typed core: integer / boolean / non-numeric string / null values and floats that are exact halves; integers small enough for exact "
-    "i64 -> f64 conversion",
+    "typed core: integer / boolean / non-numeric string / null values and floats that are exact halves (i64 -> f64 conversion is "
+    "modelled: C06.round53); arithmetic: quotients that are exact in binary (divisors 0, +-2^k), no f64 exponent overflow; numeric literals "
+    "inside expressions are non-negative (neither evaluator reads a negative literal as an operand); runs that leave the value domain "
+    "are flagged DX by the harness and excluded",
     "all facts are explicit assertions (the TMS cascade of retract is empty — C08's subject)",
     "HashMap/HashSet iteration order (order of rules/facts during propagation; which fact of a type provides the un-prefixed "
     "`Type.field` keys of the flattened copy) is a free choice of the implementation: the model fixes one, the theorems do not depend "
@@ -110,7 +148,8 @@ def agree(case, impl, model):
     if impl == model:
         return True
     # two live facts of one type at some point: hash-order dependent details may differ; the oracle line already passed
-    return impl.startswith("D0 ")
+    # DX: a value outside the modelled value domain showed up in the run (harness flag; the oracle answers `ok out_of_domain`)
+    return impl.startswith("D0 ") or impl.startswith("DX ")
 
 
 def classify(case, impl, model, oracle, kind):
@@ -133,7 +172,20 @@ LEVEL_TEXT = ("Lean 4 theorems (kernel-checked, unbounded histories) about an ex
               "re-propagation after a firing queues every unfired rule on every live fact that satisfies it). The GRL loader is modelled by "
               "C06.loaderRule (loader_exact_on_grl_literals, loader_negation_kept, loader_negated_comparison_on_absent_field) and tied to "
               "src/rete/grl_loader.rs by running every case through GrlReteLoader in a second engine. The oracle "
-              "clauses exactOk / exactAfterOk are evaluated on every applicable run of both engines.")
+              "clauses exactOk / exactAfterOk are evaluated on every applicable run of both engines. "
+              "Reach audit 2: the rule language of the model now has arithmetic conditions (Node.test = matches_typed / "
+              "evaluate_arithmetic_rete / evaluate_arithmetic_expr, after fix-C06e) and assignments whose right-hand side is an expression "
+              "evaluated at FIRING time (Action.xsets / Action.resolve = execute_action / evaluate_expression_for_rete / src/expression.rs / "
+              "value_to_fact_value, f64 rounding and saturating casts included); every theorem above is proved for that language, and "
+              "ArithTheorems.lean adds: an action without expressions is what it was (resolve_literal_only), each expression sees the earlier "
+              "assignments of the same firing (assignments_see_earlier_writes), the assignments depend on the matched fact's contents only "
+              "(resolve_reads_contents_only), the fired fact holds the expression's value (fire_one_stores_expression_value), a failed "
+              "evaluation stores the text (failed_expression_stores_its_text), an arithmetic condition over a missing field is false "
+              "(test_missing_head_false), conditions use the standard precedence after fix-C06e (test_uses_standard_precedence; "
+              "test_precedence_prefix_counterexample = F-C06e), and one touching call re-propagates the whole type "
+              "(quiescent_fire_all_exact_by_type: the exactness clause holds as soon as the TYPE of every live fact was touched — an insert of "
+              "the type, an update or retract of ANY live fact of the type — since the last fire_all, for all histories; oracle clause "
+              "exactTypeOk; one_touch_repropagates_type_partial is the single-call case).")
 LEVEL_NOTE = ("Trusted: Lean kernel + {propext, Classical.choice, Quot.sound}; hand-written model tied to the code by differential testing "
               "only; recorder closure mimics the GRL action closure. quiescent_fire_all_exact carries the explicit hypotheses: contents are maps (one "
               "binding per field), every live fact inserted/updated since the last fire_all, at most 1000 rules.")
